@@ -225,6 +225,11 @@ def fam_construct(rng, n, tier):
         t = list(s)
         t[-1] += 1
         bad.append(["new a %s %s" % (dims_s(s), v), "new b %s %s" % (dims_s(t), vals_s([1] * prod(t), "exact")), "nest c a,b"])
+        # same element count, different dimensions: a unit dimension appended or prepended, reversed, flattened
+        for t in (s + [1], [1] + s, list(reversed(s)), [prod(s)], s[:-1] + [1, s[-1]]):
+            if t != s:
+                for order in ("a,b", "b,a", "a,a,b"):
+                    bad.append(["new a %s %s" % (dims_s(s), v), "new b %s %s" % (dims_s(t), v), "nest c %s" % order])
     bad.append(["nest c -"])
     for i, L in enumerate(bad):
         cases.append(Case(L, ("bad", i, tuple(L)), ["malformed"]))
@@ -713,6 +718,26 @@ class Prog:
         self.note("matmul", r, args)
         return r
 
+    def op_conv(self, res=None):
+        """convolve an existing array of rank >= 3 (or a fresh image) with fresh filters"""
+        rng = self.rng
+        a = self.pick(lambda n: len(self.shape[n]) >= 3 and self.shape[n][-1] >= 2 and self.shape[n][-2] >= 2)
+        if a is None or rng.random() < 0.3:
+            a = self.new_leaf([rng.randint(1, 2), rng.randint(2, 3), rng.randint(2, 3)])
+        s = self.shape[a]
+        depth, rows, cols = s[-3], s[-2], s[-1]
+        fr, fc = rng.randint(1, min(2, rows)), rng.randint(1, min(2, cols))
+        count = rng.randint(1, 2)
+        f = self.new_leaf([count, depth, fr, fc])
+        sr, sc_ = rng.randint(1, 2), rng.randint(1, 2)
+        r = res or self.fresh()
+        self.emit("conv %s %s %s %d %d" % (r, a, f, sr, sc_))
+        self.shape[r] = s[:-3] + [count, (rows - fr) // sr + 1, (cols - fc) // sc_ + 1]
+        self.tr[r] = self.tr[a] or self.tr[f]
+        self.leaf.discard(r)
+        self.note("conv", r, [a, f])
+        return r
+
     def op_cop(self, kind=None, res=None, args=None):
         rng = self.rng
         kind = rng.choice([0, 1, 2, 3]) if kind is None else kind
@@ -736,8 +761,10 @@ class Prog:
             return self.op_binary()
         if x < 0.8:
             return self.op_unary()
-        if x < 0.9:
+        if x < 0.88:
             return self.op_matmul() or self.op_binary()
+        if x < 0.94:
+            return self.op_conv()
         return self.op_cop()
 
     def seed_for(self, v):
@@ -1185,11 +1212,27 @@ def fam_train(rng, n, tier, mode="exact", forward_only=False):
             L.append("new x%d %s %s" % (it, dims_s(xdims), vals_s(xv, mode)))
             yv = gen_vals(rng, prod(ydims), mode) if mode == "exact" else posfloats(rng, prod(ydims), 0.0, 1.0)
             L.append("new y%d %s %s" % (it, dims_s(ydims), vals_s(yv, mode)))
+            xtracked = rng.random() < 0.35
+            if xtracked:
+                # the input batch may itself be tracked (a leaf, or the output of another model)
+                L.append("tracked x%d" % it)
+            if it == 0 and rng.random() < 0.3:
+                # a step before anything was differentiated: nothing holds a gradient, nothing may change -
+                # and nothing may be remembered about it
+                L.append("update M")
+                L.append("params M")
             L.append("fwd out%d M x%d" % (it, it))
+            if xtracked:
+                L.append("flags x%d" % it)
             L.append("bwd M y%d" % it)
             L.append("params M")
+            if xtracked:
+                L += ["grad x%d" % it, "flags x%d" % it]
             L.append("update M")
             L.append("params M")
+            if rng.random() < 0.15:
+                L.append("update M")          # a second update without a new pass: gradients were taken
+                L.append("params M")
             if it > 0 and rng.random() < 0.5:
                 # everything of the previous iteration has been released
                 L.append("drop out%d" % (it - 1))
@@ -1218,7 +1261,7 @@ def rename_lines(lines, names, prefix):
     return out
 
 
-OPS_WITH_ARGS = {"add": (2, 3), "sub": (2, 3), "mul": (2, 3), "div": (2, 3), "neg": (2,), "scale": (2,), "powf": (2,),
+OPS_WITH_ARGS = {"conv": (2, 3), "add": (2, 3), "sub": (2, 3), "mul": (2, 3), "div": (2, 3), "neg": (2,), "scale": (2,), "powf": (2,),
                  "relu": (2,), "sigmoid": (2,), "exp": (2,), "softmax": (2,), "sum": (2,), "reshape": (2,),
                  "matmul": (2, 4, 6)}
 
@@ -1697,6 +1740,32 @@ def fam_selfviews(rng, n, tier, mode="exact"):
                         L += ["grad a", "grad v", "grad r"]
                         cases.append(Case(L, ("sv", tuple(s), op, vn, order, tracked), [op, vn, tracked], mode,
                                           nontrivial=(vn not in ("clone", "sum0"))))
+    # matmul of an array with another handle of itself: clone, same-shape view, views whose leading
+    # dimensions cross-broadcast with the original's; all four flag combinations; values and gradients
+    mm = [([2, 2], [2, 2]), ([2, 1, 2, 2], [1, 2, 2, 2]), ([1, 2, 2, 2], [2, 1, 2, 2]), ([2, 2, 2], [2, 2, 2]),
+          ([2, 3], [3, 2]), ([2, 2, 3], [2, 3, 2]), ([3, 3], [3, 3])]
+    for (da, dv) in mm:
+        for ta in ("N", "T"):
+            for tb in ("N", "T"):
+                for how in ("reshape", "clone"):
+                    if how == "clone" and da != dv:
+                        continue
+                    ka = da[-2] if ta == "T" else da[-1]
+                    kb = dv[-1] if tb == "T" else dv[-2]
+                    if ka != kb:
+                        continue
+                    for order in (0, 1):
+                        L = ["new a %s %s" % (dims_s(da), vals_s(list(range(1, prod(da) + 1)) if mode == "exact" else floats(rng, prod(da)), mode)),
+                             "tracked a", ("reshape v a %s" % dims_s(dv)) if how == "reshape" else "clone v a"]
+                        x, y, fx, fy = ("a", "v", ta, tb) if order == 0 else ("v", "a", tb, ta)
+                        if order == 1:
+                            kx = dv[-2] if fx == "T" else dv[-1]
+                            ky = da[-1] if fy == "T" else da[-2]
+                            if kx != ky:
+                                continue
+                        L += ["matmul r %s %s %s %s -" % (x, fx, y, fy), "backward r -", "grad a", "grad v"]
+                        cases.append(Case(L, ("svmm", tuple(da), tuple(dv), ta, tb, how, order), ["matmul", how], mode,
+                                          nontrivial=True))
     for _ in range(n):
         p = Prog(rng, mode)
         a = p.new_leaf(tracked=True)
@@ -1770,6 +1839,15 @@ def fam_scalar_edges(rng, n, tier, mode="float"):
                 L = ["new a 2 %s" % vals_s([m1, -m1], mode), "new b 2 %s" % vals_s([m2, 3 * m2], mode),
                      "tracked a", "tracked b", "%s r a b" % op, "backward r -", "grad a", "grad b"]
                 cases.append(Case(L, ("edge2", op, m1, m2), [op, "edge"], mode))
+    # softmax rows that saturate, differentiated through cross-entropy with the target off the arg-max
+    # (the adjoint reaching softmax is huge exactly where the probability is tiny)
+    for gap in (1.0, 5.0, 15.0, 20.0, 30.0, 40.0, 60.0, 100.0):
+        for bigfirst in (False, True):
+            row = [gap, 0.0] if bigfirst else [0.0, gap]
+            tgt = [0.0, 1.0] if bigfirst else [1.0, 0.0]
+            L = ["new z 2,2 %s" % vals_s(row + [1.0, 2.0], mode), "tracked z", "softmax p z",
+                 "new t 2,2 %s" % vals_s(tgt + [0.0, 1.0], mode), "cost e xent p t", "backward e -", "grad z"]
+            cases.append(Case(L, ("edgesm", gap, bigfirst), ["softmax", "xent", "edge"], mode))
     # costs on probabilities close to 0 and 1
     for p in (1e-30, 1e-10, 1e-7, 1e-3, 0.5, 1 - 1e-3, 1 - 1e-7):
         L = ["new o 1,2 %s" % vals_s([p, 1 - p if p < 0.5 else 1e-3], mode), "new t 1,2 %s" % vals_s([1.0, 0.0], mode),
